@@ -1,5 +1,15 @@
-// Prototype deterministic scheduler for nng via ld --wrap (feasibility probe).
+// vsched (E1): deterministic scheduler + virtual clock for nng via ld --wrap.
+//
+// Every nng thread (created through nni_plat_thr_init), every harness actor (vs_spawn) and the
+// thread that called vs_init are "controlled": exactly one of them runs at any time, and control
+// changes hands only at sync points (mutex lock/unlock, cv wait/wake, thread start/exit/join,
+// sleep, epoll_wait).  nni_clock() is a virtual clock that advances only when nothing can run, or
+// by a small creep while code spins on it.  All choices are a pure function of vs_cfg.seed.
+#ifndef _GNU_SOURCE
 #define _GNU_SOURCE
+#endif
+#include "core/nng_impl.h"
+
 #include <errno.h>
 #include <poll.h>
 #include <pthread.h>
@@ -12,20 +22,8 @@
 
 #include "vsched.h"
 
-typedef struct nni_plat_mtx {
-	pthread_mutex_t mtx;
-} nni_plat_mtx;
-typedef struct nni_plat_cv {
-	pthread_cond_t   cv;
-	pthread_mutex_t *mtx;
-} nni_plat_cv;
-typedef struct nni_plat_thr {
-	pthread_t tid;
-	void (*func)(void *);
-	void *arg;
-} nni_plat_thr;
-
-enum { ST_RUN, ST_MTX, ST_CV, ST_SLEEP, ST_IO, ST_JOIN, ST_IDLEWAIT, ST_DONE };
+enum { ST_RUN, ST_MTX, ST_CV, ST_SLEEP, ST_IO, ST_JOIN, ST_SETTLE, ST_DONE, ST_FREE };
+static const char *st_names[] = { "RUN", "MTX", "CV", "SLEEP", "IO", "JOIN", "SETTLE", "DONE", "FREE" };
 
 typedef struct vthread {
 	int            id;
@@ -35,20 +33,26 @@ typedef struct vthread {
 	uint64_t       deadline; // 0 = none
 	bool           timedout;
 	int            epfd;
-	nni_plat_thr  *pthr;
+	nni_plat_thr  *pthr;    // nng thread (NULL for harness threads)
+	nni_plat_thr   own;     // storage for harness actor threads
+	bool           harness;
+	uint64_t       prio;
+	bool           joined;
 } vthread;
 
-#define MAXT 128
-static pthread_mutex_t G = PTHREAD_MUTEX_INITIALIZER;
-static vthread         T[MAXT];
-static int             nT;
-static vthread        *cur;
-static uint64_t        vnow = 1000000; // ms
-static bool            enabled;
-static uint64_t        rng = 88172645463325252ull;
-static int             preempt_pct = 0;
-static int             io_grace_ms = 0;
-static long            nsteps, nswitch, clock_calls;
+#define MAXT 256
+static pthread_mutex_t   G = PTHREAD_MUTEX_INITIALIZER;
+static vthread           T[MAXT];
+static int               nT;
+static vthread          *cur;
+static uint64_t          vnow = 1000000; // virtual milliseconds
+static volatile bool     enabled;
+static uint64_t          rng = 88172645463325252ull;
+static vs_cfg            C;
+static long              nsteps, nswitch, npreempt, clock_calls;
+static long              cpoints[16];
+static int               ncp;
+static uint64_t          vstart;
 static __thread vthread *self;
 
 static uint64_t
@@ -57,23 +61,42 @@ rnd(void)
 	rng ^= rng << 13;
 	rng ^= rng >> 7;
 	rng ^= rng << 17;
-	return rng;
+	return (rng);
+}
+
+uint32_t
+vs_random(void)
+{
+	return ((uint32_t) (rnd() >> 16));
 }
 
 static void
 dump(const char *why)
 {
-	fprintf(stderr, "VSCHED %s at vnow=%llu\n", why, (unsigned long long) vnow);
+	fprintf(stderr, "VSCHED %s at vnow=%llu (+%llu ms) steps=%ld\n", why, (unsigned long long) vnow,
+	    (unsigned long long) (vnow - vstart), nsteps);
 	for (int i = 0; i < nT; i++) {
-		fprintf(stderr, "  t%d st=%d obj=%p deadline=%llu\n", T[i].id, T[i].st,
-		    T[i].obj, (unsigned long long) T[i].deadline);
+		if (T[i].st == ST_FREE) {
+			continue;
+		}
+		fprintf(stderr, "  t%d%s st=%s obj=%p deadline=%llu\n", T[i].id, T[i].harness ? "(harness)" : "",
+		    st_names[T[i].st], T[i].obj, (unsigned long long) T[i].deadline);
 	}
+	fflush(stderr);
+}
+
+static void
+die(const char *why)
+{
+	dump(why);
+	abort();
 }
 
 // Called with G held.  Picks the next thread and transfers control.  Returns
-// (with G held) when this thread is scheduled again.
+// (with G held) when this thread is scheduled again.  preempt=true means the
+// caller is still runnable and merely offers to yield.
 static void
-schedule(void)
+schedule(bool preempt)
 {
 	for (;;) {
 		vthread *cand[MAXT];
@@ -84,30 +107,37 @@ schedule(void)
 			}
 		}
 		if (n == 0) {
-			// any I/O?
+			// Nothing runnable: look for kernel I/O first.
 			struct pollfd pfd[MAXT];
 			vthread      *iot[MAXT];
 			int           np = 0;
 			for (int i = 0; i < nT; i++) {
 				if (T[i].st == ST_IO) {
-					pfd[np].fd     = T[i].epfd;
-					pfd[np].events = POLLIN;
-					iot[np]        = &T[i];
+					pfd[np].fd      = T[i].epfd;
+					pfd[np].events  = POLLIN;
+					pfd[np].revents = 0;
+					iot[np]         = &T[i];
 					np++;
 				}
 			}
-			if (np > 0 && poll(pfd, np, io_grace_ms) > 0) {
-				for (int i = 0; i < np; i++) {
-					if (pfd[i].revents) {
-						iot[i]->st = ST_RUN;
+			if (np > 0) {
+				int pr;
+				do {
+					pr = poll(pfd, np, C.grace_ms);
+				} while (pr < 0 && errno == EINTR);
+				if (pr > 0) {
+					for (int i = 0; i < np; i++) {
+						if (pfd[i].revents) {
+							iot[i]->st = ST_RUN;
+						}
 					}
+					continue;
 				}
-				continue;
 			}
-			// idle waiters get priority over time advance
+			// Quiescent at this instant: settle() callers go before time moves.
 			bool woke = false;
 			for (int i = 0; i < nT; i++) {
-				if (T[i].st == ST_IDLEWAIT) {
+				if (T[i].st == ST_SETTLE) {
 					T[i].st = ST_RUN;
 					woke    = true;
 				}
@@ -117,38 +147,62 @@ schedule(void)
 			}
 			uint64_t dl = 0;
 			for (int i = 0; i < nT; i++) {
-				if ((T[i].st == ST_CV || T[i].st == ST_SLEEP) &&
-				    T[i].deadline != 0 &&
+				if ((T[i].st == ST_CV || T[i].st == ST_SLEEP) && T[i].deadline != 0 &&
 				    (dl == 0 || T[i].deadline < dl)) {
 					dl = T[i].deadline;
 				}
 			}
 			if (dl == 0) {
-				dump("DEADLOCK");
-				abort();
+				die("DEADLOCK");
 			}
 			if (dl > vnow) {
 				vnow = dl;
 			}
+			if (vnow - vstart > C.max_virtual_ms) {
+				die("LIVELOCK (virtual time budget exceeded)");
+			}
 			for (int i = 0; i < nT; i++) {
-				if ((T[i].st == ST_CV || T[i].st == ST_SLEEP) &&
-				    T[i].deadline != 0 && T[i].deadline <= vnow) {
+				if ((T[i].st == ST_CV || T[i].st == ST_SLEEP) && T[i].deadline != 0 &&
+				    T[i].deadline <= vnow) {
 					T[i].st       = ST_RUN;
 					T[i].timedout = true;
 				}
 			}
 			continue;
 		}
-		vthread *next;
-		if (self->st == ST_RUN && (preempt_pct == 0 ||
-		        (int) (rnd() % 100) >= preempt_pct)) {
-			next = self;
-		} else {
-			next = cand[rnd() % n];
+		if (++nsteps > C.max_steps) {
+			die("LIVELOCK (step budget exceeded)");
 		}
-		nsteps++;
+		vthread *next = NULL;
+		switch (C.mode) {
+		case VS_FIFO:
+			next = (self->st == ST_RUN) ? self : cand[rnd() % n];
+			break;
+		case VS_RAND:
+			if (self->st == ST_RUN && (int) (rnd() % 100) >= C.pct) {
+				next = self;
+			} else {
+				next = cand[rnd() % n];
+			}
+			break;
+		case VS_PCT:
+			for (int i = 0; i < ncp; i++) {
+				if (cpoints[i] == nsteps && self->st == ST_RUN) {
+					self->prio = (uint64_t) (ncp - i); // below every initial priority
+				}
+			}
+			for (int i = 0; i < n; i++) {
+				if (next == NULL || cand[i]->prio > next->prio) {
+					next = cand[i];
+				}
+			}
+			break;
+		}
 		if (next != self) {
 			nswitch++;
+			if (preempt) {
+				npreempt++;
+			}
 			cur = next;
 			pthread_cond_signal(&next->cv);
 			if (self->st == ST_DONE) {
@@ -165,6 +219,7 @@ schedule(void)
 static void
 wake_obj(int st, void *obj, bool one)
 {
+	// deterministic order; for wake1 pick the lowest-numbered waiter
 	for (int i = 0; i < nT; i++) {
 		if (T[i].st == st && T[i].obj == obj) {
 			T[i].st       = ST_RUN;
@@ -179,24 +234,27 @@ wake_obj(int st, void *obj, bool one)
 static void
 yield_point(void)
 {
-	if (preempt_pct) {
+	if (C.mode != VS_FIFO) {
 		pthread_mutex_lock(&G);
-		schedule();
+		schedule(true);
 		pthread_mutex_unlock(&G);
 	}
 }
 
-extern void __real_nni_plat_mtx_lock(nni_plat_mtx *);
-extern void __real_nni_plat_mtx_unlock(nni_plat_mtx *);
-extern void __real_nni_plat_cv_wake(nni_plat_cv *);
-extern void __real_nni_plat_cv_wake1(nni_plat_cv *);
-extern void __real_nni_plat_cv_wait(nni_plat_cv *);
-extern int  __real_nni_plat_cv_until(nni_plat_cv *, uint64_t);
-extern int  __real_nni_plat_thr_init(nni_plat_thr *, void (*)(void *), void *);
-extern void __real_nni_plat_thr_fini(nni_plat_thr *);
+extern void     __real_nni_plat_mtx_lock(nni_plat_mtx *);
+extern void     __real_nni_plat_mtx_unlock(nni_plat_mtx *);
+extern void     __real_nni_plat_cv_wake(nni_plat_cv *);
+extern void     __real_nni_plat_cv_wake1(nni_plat_cv *);
+extern void     __real_nni_plat_cv_wait(nni_plat_cv *);
+extern int      __real_nni_plat_cv_until(nni_plat_cv *, uint64_t);
+extern int      __real_nni_plat_thr_init(nni_plat_thr *, void (*)(void *), void *);
+extern void     __real_nni_plat_thr_fini(nni_plat_thr *);
 extern uint64_t __real_nni_clock(void);
 extern void     __real_nni_msleep(int32_t);
-extern int __real_epoll_wait(int, struct epoll_event *, int, int);
+extern int      __real_epoll_wait(int, struct epoll_event *, int, int);
+extern uint32_t __real_nni_random(void);
+
+#define PASSTHRU (!enabled || self == NULL)
 
 static void
 vlock(pthread_mutex_t *m)
@@ -207,10 +265,14 @@ vlock(pthread_mutex_t *m)
 		if (rv == 0) {
 			return;
 		}
+		if (rv != EBUSY) {
+			fprintf(stderr, "VSCHED mutex error %d\n", rv);
+			abort();
+		}
 		pthread_mutex_lock(&G);
 		self->st  = ST_MTX;
 		self->obj = m;
-		schedule();
+		schedule(false);
 		pthread_mutex_unlock(&G);
 	}
 }
@@ -218,16 +280,23 @@ vlock(pthread_mutex_t *m)
 static void
 vunlock(pthread_mutex_t *m)
 {
-	pthread_mutex_unlock(m);
+	int rv = pthread_mutex_unlock(m);
+	if (rv != 0) {
+		fprintf(stderr, "VSCHED mutex unlock error %d\n", rv);
+		abort();
+	}
 	pthread_mutex_lock(&G);
 	wake_obj(ST_MTX, m, false);
+	if (C.mode != VS_FIFO) {
+		schedule(true);
+	}
 	pthread_mutex_unlock(&G);
 }
 
 void
 __wrap_nni_plat_mtx_lock(nni_plat_mtx *m)
 {
-	if (!enabled || self == NULL) {
+	if (PASSTHRU) {
 		__real_nni_plat_mtx_lock(m);
 		return;
 	}
@@ -237,7 +306,7 @@ __wrap_nni_plat_mtx_lock(nni_plat_mtx *m)
 void
 __wrap_nni_plat_mtx_unlock(nni_plat_mtx *m)
 {
-	if (!enabled || self == NULL) {
+	if (PASSTHRU) {
 		__real_nni_plat_mtx_unlock(m);
 		return;
 	}
@@ -253,7 +322,7 @@ vcvwait(nni_plat_cv *cv, uint64_t deadline)
 		// immediate timeout: model the passage of (spin) time
 		vnow++;
 		pthread_mutex_unlock(&G);
-		return (5); // NNG_ETIMEDOUT
+		return (NNG_ETIMEDOUT);
 	}
 	self->st       = ST_CV;
 	self->obj      = cv;
@@ -261,18 +330,18 @@ vcvwait(nni_plat_cv *cv, uint64_t deadline)
 	self->timedout = false;
 	pthread_mutex_unlock(cv->mtx);
 	wake_obj(ST_MTX, cv->mtx, false);
-	schedule();
+	schedule(false);
 	to             = self->timedout;
 	self->deadline = 0;
 	pthread_mutex_unlock(&G);
 	vlock(cv->mtx);
-	return (to ? 5 : 0);
+	return (to ? NNG_ETIMEDOUT : 0);
 }
 
 void
 __wrap_nni_plat_cv_wait(nni_plat_cv *cv)
 {
-	if (!enabled || self == NULL) {
+	if (PASSTHRU) {
 		__real_nni_plat_cv_wait(cv);
 		return;
 	}
@@ -282,8 +351,11 @@ __wrap_nni_plat_cv_wait(nni_plat_cv *cv)
 int
 __wrap_nni_plat_cv_until(nni_plat_cv *cv, uint64_t until)
 {
-	if (!enabled || self == NULL) {
+	if (PASSTHRU) {
 		return (__real_nni_plat_cv_until(cv, until));
+	}
+	if (until == 0) {
+		until = 1;
 	}
 	return (vcvwait(cv, until));
 }
@@ -291,7 +363,7 @@ __wrap_nni_plat_cv_until(nni_plat_cv *cv, uint64_t until)
 void
 __wrap_nni_plat_cv_wake(nni_plat_cv *cv)
 {
-	if (!enabled || self == NULL) {
+	if (PASSTHRU) {
 		__real_nni_plat_cv_wake(cv);
 		return;
 	}
@@ -303,7 +375,7 @@ __wrap_nni_plat_cv_wake(nni_plat_cv *cv)
 void
 __wrap_nni_plat_cv_wake1(nni_plat_cv *cv)
 {
-	if (!enabled || self == NULL) {
+	if (PASSTHRU) {
 		__real_nni_plat_cv_wake1(cv);
 		return;
 	}
@@ -327,17 +399,29 @@ __wrap_nni_clock(void)
 	return (v);
 }
 
+uint32_t
+__wrap_nni_random(void)
+{
+	if (!enabled) {
+		return (__real_nni_random());
+	}
+	pthread_mutex_lock(&G);
+	uint32_t v = vs_random();
+	pthread_mutex_unlock(&G);
+	return (v);
+}
+
 void
 __wrap_nni_msleep(int32_t ms)
 {
-	if (!enabled || self == NULL) {
+	if (PASSTHRU) {
 		__real_nni_msleep(ms);
 		return;
 	}
 	pthread_mutex_lock(&G);
 	self->st       = ST_SLEEP;
-	self->deadline = vnow + (ms > 0 ? ms : 1);
-	schedule();
+	self->deadline = vnow + (ms > 0 ? (uint64_t) ms : 1);
+	schedule(false);
 	self->deadline = 0;
 	pthread_mutex_unlock(&G);
 }
@@ -356,37 +440,50 @@ tramp(void *arg)
 	pthread_mutex_lock(&G);
 	self->st = ST_DONE;
 	wake_obj(ST_JOIN, self, false);
-	schedule();
+	schedule(false);
 	pthread_mutex_unlock(&G);
 	return (NULL);
 }
 
-int
-__wrap_nni_plat_thr_init(nni_plat_thr *thr, void (*fn)(void *), void *arg)
+static vthread *
+new_vthread(void) // G held
 {
-	if (!enabled || self == NULL) {
-		return (__real_nni_plat_thr_init(thr, fn, arg));
-	}
-	pthread_mutex_lock(&G);
 	vthread *t = NULL;
 	for (int i = 1; i < nT; i++) {
-		if (T[i].st == ST_DONE && T[i].pthr == NULL) {
+		if (T[i].st == ST_FREE) {
 			t = &T[i];
 			break;
 		}
 	}
 	if (t == NULL) {
+		if (nT >= MAXT) {
+			die("too many threads");
+		}
 		t = &T[nT];
 		memset(t, 0, sizeof(*t));
 		t->id = nT++;
 		pthread_cond_init(&t->cv, NULL);
 	}
-	t->st     = ST_RUN;
-	t->obj    = NULL;
+	t->st       = ST_RUN;
+	t->obj      = NULL;
 	t->deadline = 0;
-	t->pthr   = thr;
-	thr->func = fn;
-	thr->arg  = arg;
+	t->harness  = false;
+	t->joined   = false;
+	t->prio     = (rnd() | (1ull << 40)); // always above the change-point priorities
+	return (t);
+}
+
+int
+__wrap_nni_plat_thr_init(nni_plat_thr *thr, void (*fn)(void *), void *arg)
+{
+	if (PASSTHRU) {
+		return (__real_nni_plat_thr_init(thr, fn, arg));
+	}
+	pthread_mutex_lock(&G);
+	vthread *t = new_vthread();
+	t->pthr    = thr;
+	thr->func  = fn;
+	thr->arg   = arg;
 	pthread_mutex_unlock(&G);
 	if (pthread_create(&thr->tid, NULL, tramp, t) != 0) {
 		abort();
@@ -394,34 +491,49 @@ __wrap_nni_plat_thr_init(nni_plat_thr *thr, void (*fn)(void *), void *arg)
 	return (0);
 }
 
+static void
+vjoin(vthread *t)
+{
+	pthread_mutex_lock(&G);
+	while (t->st != ST_DONE) {
+		self->st  = ST_JOIN;
+		self->obj = t;
+		schedule(false);
+	}
+	pthread_t tid = t->pthr->tid;
+	t->pthr       = NULL;
+	t->st         = ST_FREE;
+	pthread_mutex_unlock(&G);
+	pthread_join(tid, NULL);
+}
+
 void
 __wrap_nni_plat_thr_fini(nni_plat_thr *thr)
 {
-	if (!enabled || self == NULL) {
+	if (PASSTHRU) {
 		__real_nni_plat_thr_fini(thr);
 		return;
 	}
 	vthread *t = NULL;
 	pthread_mutex_lock(&G);
 	for (int i = 0; i < nT; i++) {
-		if (T[i].pthr == thr && T[i].st != ST_DONE + 1) {
+		if (T[i].pthr == thr && T[i].st != ST_FREE) {
 			t = &T[i];
 		}
 	}
-	while (t->st != ST_DONE) {
-		self->st  = ST_JOIN;
-		self->obj = t;
-		schedule();
-	}
-	t->pthr = NULL;
 	pthread_mutex_unlock(&G);
-	pthread_join(thr->tid, NULL);
+	if (t == NULL) {
+		// created before the scheduler was enabled
+		__real_nni_plat_thr_fini(thr);
+		return;
+	}
+	vjoin(t);
 }
 
 int
 __wrap_epoll_wait(int epfd, struct epoll_event *ev, int max, int tmo)
 {
-	if (!enabled || self == NULL) {
+	if (PASSTHRU) {
 		return (__real_epoll_wait(epfd, ev, max, tmo));
 	}
 	for (;;) {
@@ -432,34 +544,95 @@ __wrap_epoll_wait(int epfd, struct epoll_event *ev, int max, int tmo)
 		pthread_mutex_lock(&G);
 		self->st   = ST_IO;
 		self->epfd = epfd;
-		schedule();
+		schedule(false);
 		pthread_mutex_unlock(&G);
 	}
 }
 
 void
-vs_init(uint64_t seed, int pct, int grace)
+vs_init(const vs_cfg *cfg)
 {
+	C = *cfg;
+	if (C.max_steps <= 0) {
+		C.max_steps = 20000000;
+	}
+	if (C.max_virtual_ms == 0) {
+		C.max_virtual_ms = 3600 * 1000;
+	}
+	for (int i = 0; i < nT; i++) {
+		pthread_cond_destroy(&T[i].cv);
+	}
 	nT = 0;
 	memset(T, 0, sizeof(T));
 	vthread *t = &T[nT];
 	t->id      = nT++;
 	t->st      = ST_RUN;
+	t->harness = true;
 	pthread_cond_init(&t->cv, NULL);
-	self        = t;
-	cur         = t;
-	rng         = seed ? seed : 1;
-	preempt_pct = pct;
-	io_grace_ms = grace;
-	enabled     = true;
+	self    = t;
+	cur     = t;
+	rng     = cfg->seed * 0x9E3779B97F4A7C15ull + 0x1234567;
+	if (rng == 0) {
+		rng = 1;
+	}
+	for (int i = 0; i < 4; i++) {
+		(void) rnd();
+	}
+	t->prio     = (rnd() | (1ull << 40));
+	nsteps      = 0;
+	nswitch     = 0;
+	npreempt    = 0;
+	clock_calls = 0;
+	vnow        = 1000000;
+	vstart      = vnow;
+	ncp         = 0;
+	if (C.mode == VS_PCT) {
+		if (C.depth > 16) {
+			C.depth = 16;
+		}
+		if (C.horizon <= 0) {
+			C.horizon = 2000;
+		}
+		for (int i = 0; i < C.depth; i++) {
+			cpoints[ncp++] = (long) (rnd() % (uint64_t) C.horizon) + 1;
+		}
+	}
+	enabled = true;
+}
+
+void
+vs_fini(void)
+{
+	enabled = false;
+	self    = NULL;
+}
+
+int
+vs_enabled(void)
+{
+	return (enabled);
 }
 
 void
 vs_settle(void)
 {
+	if (PASSTHRU) {
+		return;
+	}
 	pthread_mutex_lock(&G);
-	self->st = ST_IDLEWAIT;
-	schedule();
+	self->st = ST_SETTLE;
+	schedule(false);
+	pthread_mutex_unlock(&G);
+}
+
+void
+vs_yield(void)
+{
+	if (PASSTHRU) {
+		return;
+	}
+	pthread_mutex_lock(&G);
+	schedule(true);
 	pthread_mutex_unlock(&G);
 }
 
@@ -475,9 +648,33 @@ vs_now(void)
 	return (vnow);
 }
 
+int
+vs_spawn(void (*fn)(void *), void *arg)
+{
+	pthread_mutex_lock(&G);
+	vthread *t    = new_vthread();
+	t->harness    = true;
+	t->pthr       = &t->own;
+	t->own.func   = fn;
+	t->own.arg    = arg;
+	int id        = t->id;
+	pthread_mutex_unlock(&G);
+	if (pthread_create(&t->own.tid, NULL, tramp, t) != 0) {
+		abort();
+	}
+	return (id);
+}
+
 void
-vs_stats(long *steps, long *sw)
+vs_join(int h)
+{
+	vjoin(&T[h]);
+}
+
+void
+vs_stats(long *steps, long *sw, long *pre)
 {
 	*steps = nsteps;
 	*sw    = nswitch;
+	*pre   = npreempt;
 }
